@@ -98,6 +98,7 @@ type lineLookup struct {
 	lineOffsets []int
 	lastOffset  int64
 	lastIndex   int
+	lineShift   int // lines removed in front of the root element before parsing
 }
 
 func newLineLookup(content []byte) *lineLookup {
@@ -122,7 +123,7 @@ func (ll *lineLookup) Line(offset int64) int {
 		}
 		ll.lastIndex = idx
 		ll.lastOffset = offset
-		return idx + 1
+		return idx + 1 + ll.lineShift
 	}
 
 	idx := sort.Search(len(ll.lineOffsets), func(i int) bool {
@@ -133,7 +134,7 @@ func (ll *lineLookup) Line(offset int64) int {
 	}
 	ll.lastIndex = idx
 	ll.lastOffset = offset
-	return idx + 1
+	return idx + 1 + ll.lineShift
 }
 
 // AIDEV-NOTE: mjml-spec-structure; MJML document structure per official spec
@@ -159,6 +160,11 @@ func ParseMJML(mjmlContent string) (*MJMLNode, error) {
 
 	contentBytes := []byte(processedContent)
 	lookup := newLineLookup(contentBytes)
+	// Lines removed in front of the root element (comments, blank lines) must still be
+	// counted so reported line numbers refer to the original source.
+	if origIdx, newIdx := findMjmlTagIndex(mjmlContent), findMjmlTagIndex(processedContent); origIdx >= 0 && newIdx >= 0 {
+		lookup.lineShift = strings.Count(mjmlContent[:origIdx], "\n") - strings.Count(processedContent[:newIdx], "\n")
+	}
 
 	decoder := xml.NewDecoder(bytes.NewReader(contentBytes))
 	root, err := parseNode(decoder, xml.StartElement{}, lookup, 0, contentBytes)
